@@ -20,7 +20,7 @@ class Name:
         self.name, self.idx = name, tuple(idx)
 
     def key(self):
-        return (self.name,) + tuple(i.key() if isinstance(i, Name) else i for i in self.idx)
+        return (self.name,) + tuple((i.name if not i.idx else i.key()) if isinstance(i, Name) else i for i in self.idx)
 
     def __repr__(self):
         return self.name + ''.join(f'[{i}]' for i in self.idx)
